@@ -386,3 +386,24 @@ Fixpoint run_stateful (c : config) (cn : conn) (steps : list (sasl_mech * event)
     y <- run_stateful c (fst x) r ;;
     Ok (fst y, snd x ++ snd y)
   end.
+
+(* what a session with a stateful mechanism prints (session_log over run_stateful's steps) *)
+Section SessionLogStateful.
+  Variable strip_raw : str -> str.
+  Variable pretty_rest : event -> option str.
+
+  Fixpoint session_log_stateful (c : config) (cn : conn) (steps : list (sasl_mech * event))
+    : list (str * list str) :=
+    match steps with
+    | [] => []
+    | (m, e) :: r =>
+      match feed (set_sasl c m) cn e with
+      | Ok (cn1, outs) =>
+        (match cn_returned cn with
+         | None => recv_log strip_raw pretty_rest e :: List.map (output_log strip_raw pretty_rest) outs
+         | Some _ => []
+         end) ++ session_log_stateful c cn1 r
+      | Panic => []
+      end
+    end.
+End SessionLogStateful.
